@@ -9,6 +9,9 @@
 
 namespace aops {
 
+// when set (C19: every exit path), XTS cases may ask for less than one block: the routines then return without touching anything
+static bool g_xts_short = false;
+
 struct Case {
         std::string op; // e.g. "keyexp128/sse", "cbc_dec192/avx", "gcm128/sse:enc", "gcm256/isal:update_dec_nt", "xts128/avx:enc:raw"
         uint64_t seed = 1, len = 0, aad_len = 0, pre_len = 0; // pre_len: bytes fed through update before the observed call (stream ops)
@@ -140,7 +143,10 @@ static inline Case gen_case(const Ops &O)
         c.seed = rng64(1, UINT64_MAX - 8);
         bool nt = c.op.find("_nt") != std::string::npos;
         if (c.op.compare(0, 3, "cbc") == 0) c.len = weighted({ 6, 1 }) == 0 ? rng<uint64_t>(1, 40) : rng<uint64_t>(41, 300);
-        else if (c.op.compare(0, 3, "xts") == 0) c.len = weighted({ 8, 2, 1 }) == 0 ? rng<uint64_t>(16, 400) : rng<uint64_t>(401, 5000);
+        else if (c.op.compare(0, 3, "xts") == 0) {
+                c.len = weighted({ 8, 2, 1 }) == 0 ? rng<uint64_t>(16, 400) : rng<uint64_t>(401, 5000);
+                if (g_xts_short && coin(1, 6)) c.len = rng<uint64_t>(0, 15); // the family routines return at once for less than one block
+        }
         else {
                 c.len = weighted({ 1, 8, 3 }) == 0 ? 0 : rng<uint64_t>(1, coin(1, 4) ? 4200 : 900);
                 c.aad_len = weighted({ 1, 6, 2 }) == 0 ? 0 : rng<uint64_t>(1, coin(1, 5) ? 700 : 48);
@@ -408,7 +414,7 @@ static inline int build(const Case &c, Ops &O, guard::Arena &A, Built &B, pbt::C
                 S.add(et, "encrypted XTS tweak");
                 std::vector<uint8_t> k1a = k1, k2a = k2;
                 if (expanded) { k2a = a2.enc_schedule(); k1a = dec ? a1.dec_schedule() : a1.enc_schedule(); }
-                uint64_t len = c.len < 16 ? 16 : c.len;
+                uint64_t len = (c.len < 16 && !g_xts_short) ? 16 : c.len;
                 uint8_t *k1b = A.alloc("k1", k1a.size(), 1, PL(B_KEY), -1, SH(B_KEY)), *k2b = A.alloc("k2", k2a.size(), 1, PL(B_KD), -1, SH(B_KD)), *twb = A.alloc("tweak", 16, 1, PL(B_IV), -1, SH(B_IV));
                 memcpy(k1b, k1a.data(), k1a.size());
                 memcpy(k2b, k2a.data(), k2a.size());
@@ -420,10 +426,10 @@ static inline int build(const Case &c, Ops &O, guard::Arena &A, Built &B, pbt::C
                 B.inputs.push_back(in);
                 B.data_len = len;
                 pbt::expand(c.seed + 8, in, len);
-                B.outs.emplace_back(out, len);
+                if (len >= 16) B.outs.emplace_back(out, len); // shorter than one block: nothing is written
                 args[0] = (uint64_t) k2b; args[1] = (uint64_t) k1b; args[2] = (uint64_t) twb; args[3] = len; args[4] = (uint64_t) in; args[5] = (uint64_t) out;
                 nargs = 6;
-                exitclass = "len%16=" + std::to_string(len % 16 ? 1 : 0) + ",blocks%8=" + std::to_string(len / 16 % 8) + (len >= 128 ? ",bulk" : "");
+                exitclass = len < 16 ? "sub-block" : "len%16=" + std::to_string(len % 16 ? 1 : 0) + ",blocks%8=" + std::to_string(len / 16 % 8) + (len >= 128 ? ",bulk" : "");
         } else {
                 ctx.label("unknown-op");
                 return 1;
